@@ -536,7 +536,10 @@ class JaxExplicitComponent(ExplicitComponent):
             other = full_invals[len(dx):]
             _, deriv_vals = jax.jvp(lambda *args: self.compute_primal(*args, *other),
                                     primals=x, tangents=dx)
-            d_outputs.set_vals(deriv_vals)
+            # accumulate: d_outputs (the linear residuals) already holds the -d_outputs contribution
+            # when the outputs of this component are in the scope of the matrix-vector product.
+            for vinfo, val in zip(d_outputs._views.values(), deriv_vals):
+                vinfo.flat[:] += val if vinfo.is_scalar else val.ravel()
         else:
             inhash = ((inputs.get_hash(),) + tuple(self._discrete_inputs.values()) +
                       self.get_self_statics())
